@@ -1,5 +1,5 @@
 """C03 — configurations with different signatures never share an identifier."""
-FUNCS = ["ConfigInformation.identifiers", "HashComputer.update", "HashComputer._hashupdate"]
+FUNCS = ["HashComputer.compute", "ConfigInformation.identifiers", "HashComputer.update", "HashComputer._hashupdate"]
 LEVEL = "proof"
 LEVEL_TEXT = 'Deductive: conformance of the emitted stream to the documented encoding (tags, fixed widths, list length prefix, name before value with NAME_ID) in HashComputer.update/_hashupdate. Injectivity of the encoding itself is not mechanised. Bounded: near pairs and pairwise comparison of enumerated typed signatures (equal identifier iff equal canonical signature).'
 TRUSTED = ['sha256 collision resistance', 'injectivity of the spec encoder on the typed domain is argued in DESIGN, checked only by the bounded suite', 'z3 5.1 / cvc5 1.0.3 / z3 4.8.12 and the VC generator pyvc (validated by seeded changes, pre-fix replays and the CPython replay of counterexamples; not verified)', 'Python semantics of DESIGN 2.3 (mathematical ints and reals, left-to-right evaluation, no monkey-patching, assert not compiled out)', 'heap typing: declared field/parameter classes are assumed on reads and checked on writes in the functions under contract', "contracts of externals and of callees outside the list are assumed; every ('ASSUME', ...) clause is listed in DESIGN section 11"]
